@@ -16,7 +16,23 @@ fn main() {
 	let args: Vec<String> = std::env::args().collect();
 	match args[1].as_str() {
 		"run" => {
-			for case in read_cases(&args[2]) {
+			// watchdog: a job task that spins (paused clock, single-threaded runtime) would hang this process for ever; after 10 s of
+			// real time on one history it is reported as hung and the process ends -- the caller resumes with the next history
+			let skip: usize = args.get(3).and_then(|s| s.parse().ok()).unwrap_or(0);
+			let current: Arc<Mutex<Option<(Value, std::time::Instant)>>> = Arc::new(Mutex::new(None));
+			let cur2 = current.clone();
+			std::thread::spawn(move || loop {
+				std::thread::sleep(std::time::Duration::from_millis(500));
+				let hung = cur2.lock().unwrap().as_ref().filter(|(_, t)| t.elapsed() > std::time::Duration::from_secs(10)).map(|(id, _)| id.clone());
+				if let Some(id) = hung {
+					emit(&json!({"id": id, "hung": true}));
+					use std::io::Write;
+					let _ = std::io::stdout().flush();
+					std::process::exit(0);
+				}
+			});
+			for case in read_cases(&args[2]).into_iter().skip(skip) {
+				*current.lock().unwrap() = Some((case["id"].clone(), std::time::Instant::now()));
 				let out = std::panic::catch_unwind(|| run_case(&case));
 				match out {
 					Ok(v) => emit(&v),
